@@ -51,7 +51,12 @@ def gen_run(seed, tier, i):
     s_cfg = rng.stream(NAME, tier, seed, i, "config")
     s_ops = rng.stream(NAME, tier, seed, i, "ops")
     mode = s_struct.random()
-    if mode < 0.12:
+    ladder9 = i % 16000 == 1234
+    if ladder9:
+        # nine mutually crossing stems: the largest knotted group for which all_dot_brackets (n! per group) still
+        # finishes in the run's time limit on the unchanged tree (about 17 s) - asked first, then the others
+        st = structures.gen_big_ladder(s_struct, 9, 9)
+    elif mode < 0.12:
         st = structures.gen_multi_group(s_struct, 2, 3)
     elif mode < 0.18:
         st = structures.gen_many(s_struct, 10, 13)
@@ -74,10 +79,16 @@ def gen_run(seed, tier, i):
         enabled = ["without_isolated", "str"]
     nops = s_ops.randint(1, plan["max_ops"])
     ops = [{"op": s_ops.choice(enabled), "target": s_ops.randrange(64)} for _ in range(nops)]
+    if ladder9:
+        ops = [{"op": "all_dot_brackets", "target": 0}] + [{"op": o, "target": 0} for o in
+               s_ops.sample(["dot_bracket", "without_pseudoknots", "elements", "fcfs", "convert_none"], 3)]
+        solver = "real-cbc"  # 81 binaries in one clique: beyond the exact stub, a tenth of a second for CBC
     run = {"property": NAME, "family": st["family"], "triples": st["triples"], "solver": solver,
            "tie": s_cfg.randrange(1 << 10), "ops": ops, "loglevel": s_cfg.choice(["off", "off", "INFO", "DEBUG"]),
            "route": s_cfg.choice(solve_engine.ROUTES)}
     s_fault = rng.stream(NAME, tier, seed, i, "faults")
+    if ladder9:
+        run["expensive_listing"] = True  # the fresh-copy comparison of the listing itself would double 25 s
     if solver == "sim" and s_fault.random() < 0.15:
         # the fault-injecting configuration (kept apart from the fault-free one, whose oracle is strict): solves
         # that happen inside a call may fail.  What is judged then is purity proper - entries, text and pairs of
@@ -373,6 +384,8 @@ def execute_run(run, tmpdir):
                 set_fault(healthy)
             events.log("op.return", rng.digest(answer)[:16])
             raised = isinstance(answer, list) and answer[:1] == ["raised"]
+            if run.get("expensive_listing") and op == "all_dot_brackets":
+                ref_cache[(t, op)] = answer  # judged by its specification clauses only
             if not faulty or op not in SOLVER_DEPENDENT:
                 expected = reference(t, op)
                 if answer != expected and not (faulty and raised):
